@@ -352,6 +352,17 @@ Definition call_verdict (wf : bool) (m : table) (rows : list row) (aliases : lis
 Fixpoint first_bad (vs : list Z) (i : Z) : Z :=
   match vs with [] => 0 | v :: t => if v =? 0 then first_bad t (i + 1) else i end.
 
+(* compact constructors for the generated case files (strings as base-256 numbers, see sz) *)
+Definition szs (l : list Z) : list str := map sz l.
+Definition R (f b l : Z) : row := (sz f, b, sz l).
+Definition A (f a : Z) : arow := (sz f, sz a).
+Definition rNames (l : list Z) : res := RNames (szs l).
+Definition cVal (g : Z) (ls : list Z) (r : res) : call * res := (KVal (sz g) (szs ls), r).
+Definition cName (g v : Z) (cc : bool) (r : res) : call * res := (KName (sz g) v cc, r).
+Definition cExist (g : Z) (ls : list Z) (fe we : bool) (r : res) : call * res := (KExist (sz g) (szs ls) fe we, r).
+Definition cVNV (g v : Z) (r : res) : call * res := (KVNV (sz g) v, r).
+Definition cNVN (g : Z) (ls : list Z) (r : res) : call * res := (KNVN (sz g) (szs ls), r).
+
 (* per file: verdict of the load itself, then one verdict per call
    (0 = agrees with M and satisfies S; +1 = M differs from impl; +2 = impl contradicts S) *)
 Definition call_verdicts (c : case) : list Z :=
